@@ -7,10 +7,10 @@ import vlib
 DISPATCH = {
     "C05": "check_session", "C18": "check_session",
     "C01": "check_agent", "C02": "check_agent", "C03": "check_agent", "C04": "check_agent",
-    "C15": "check_agent", "C16": "check_agent", "C19": "check_daemon",
+    "C15": "check_agent", "C16": "check_agent", "C19": "check_daemon", "C20": "check_logs",
     "C11": "check_rpsl", "C17": "check_rpsl",
     "C06": "check_framing", "C07": "check_framing",
-    "C08": "check_wire", "C09": "check_wire", "C12": "check_wire", "C13": "check_wire", "C10": "check_wire",
+    "C08": "check_wire", "C09": "check_wire", "C12": "check_wire", "C13": "check_wire", "C10": "check_wire", "C14": "check_wire",
 }
 
 def main():
